@@ -76,6 +76,17 @@ def test(inp):
         w3 = must(lambda: ems.wind(r3, grid_kind=kind, linear_dimension=lin), f'wind(linear_dimension={lin})')
         if list(w3.dims) != others + gdims:
             return f'wind(linear_dimension={lin!r}) dims {w3.dims}'
+    if inp['n_extra'] == 1:
+        # an extra dimension that happens to be called 'index' (the default name of the linear dimension) on an array that is not from the dataset
+        xi = x.rename({others[0]: 'index'})
+        ri = must(lambda: ems.ravel(xi), "ravel of an array with a dimension named 'index'")
+        if len(set(ri.dims)) != len(ri.dims) or list(ri.dims[:-1]) != ['index'] or ri.dims[-1] in ('index',) + tuple(gdims):
+            return f"ravel of dims {xi.dims}: result dims {ri.dims} (the new linear dimension must get a name that is not in use)"
+        if not numpy.array_equal(ri.values, oracle):
+            return "ravel of an array with a dimension named 'index': values differ"
+        wi = must(lambda: ems.wind(ri, grid_kind=kind, linear_dimension=ri.dims[-1]), 'wind back')
+        if list(wi.dims) != ['index'] + gdims or not numpy.array_equal(wi.values, numpy.transpose(values, [dims.index(d) for d in others + gdims])):
+            return "wind(ravel(x)) does not reproduce x when x has a dimension named 'index'"
     if inp['n_extra'] == 0:
         bad = xarray.DataArray(numpy.zeros((2, 2)), dims=['t', 'nowhere'])
         must_raise(lambda: ems.ravel(bad), 'ravel of a variable on no grid', ValueError)
